@@ -114,7 +114,7 @@ def run(res, tier, seed, driver_ok):
                 bad('out-of-limits', 'limit-respecting solver returned a joint vector outside the limits', inp, th.tolist())
             st = np.asarray(arm._theta, dtype=float).reshape(-1)
             d = (st - th) / (2 * math.pi)
-            if np.max(np.abs(d - np.round(d))) > 1e-9:
+            if G.gt(np.max(np.abs(d - np.round(d))), 1e-9):
                 bad('state-not-solution:%s' % path, 'after a successful solve the arm\'s stored joint vector is not the returned solution', inp, {'stored': st.tolist(), 'returned': th.tolist()})
         else:
             stats['failure'] += 1
